@@ -244,31 +244,7 @@ func runC18(r *Run) {
 
 	// ---- key only read
 	kr := r.Rule("C18.keyread", "the caller's key slice is only read: never a destination of Sum/append/copy and never stored", 2)
-	for _, fn := range []*ssa.Function{newFn, resetTo} {
-		key := fn.Params[1]
-		kr.Instance(fnName(fn), true, nil)
-		eachInstr(fn, func(b *ssa.BasicBlock, i int, in ssa.Instruction) {
-			switch x := in.(type) {
-			case *ssa.Call:
-				if x.Call.IsInvoke() && x.Call.Method.Name() == "Sum" && aliasOf(x.Call.Args[0], key, 0) {
-					kr.Violation(fn, instrPos(in), "Sum into the key slice", "the digest of a long key is appended into the caller's key storage: the caller's credential is overwritten and every later use of it computes a different HMAC")
-				}
-				if isBuiltinCall(x, "append") && aliasOf(x.Call.Args[0], key, 0) {
-					kr.Violation(fn, instrPos(in), "append onto the key slice", "the caller's key storage is written")
-				}
-				if isBuiltinCall(x, "copy") && aliasOf(x.Call.Args[0], key, 0) {
-					kr.Violation(fn, instrPos(in), "copy into the key slice", "the caller's key storage is written")
-				}
-			case *ssa.Store:
-				if ia, isIA := x.Addr.(*ssa.IndexAddr); isIA && aliasOf(ia.X, key, 0) {
-					kr.Violation(fn, instrPos(in), "store into the key slice", "the caller's key storage is written")
-				}
-				if aliasOf(x.Val, key, 0) {
-					kr.Violation(fn, instrPos(in), "key slice retained", "the object keeps a reference to the caller's key")
-				}
-			}
-		})
-	}
+	checkKeyRead(r, kr, []*ssa.Function{newFn, resetTo})
 	kr.Done()
 
 	// ---- marshaled typestate
@@ -715,4 +691,38 @@ func forwardsToAssert(p *Prog, g *ssa.Function, ai int) bool {
 		}
 	})
 	return ok
+}
+
+// checkKeyRead: the key parameter (second parameter) of the given functions is only read.
+func checkKeyRead(r *Run, kr *RuleCtx, fns []*ssa.Function) {
+	for _, fn := range fns {
+		if fn == nil || len(fn.Params) < 2 {
+			kr.Fail("key-taking function", "not found")
+			continue
+		}
+		r.Analysed(fn)
+		key := fn.Params[1]
+		kr.Instance(fnName(fn), true, nil)
+		eachInstr(fn, func(b *ssa.BasicBlock, i int, in ssa.Instruction) {
+			switch x := in.(type) {
+			case *ssa.Call:
+				if x.Call.IsInvoke() && x.Call.Method.Name() == "Sum" && aliasOf(x.Call.Args[0], key, 0) {
+					kr.Violation(fn, instrPos(in), "Sum into the key slice", "the digest of a long key is appended into the caller's key storage: the caller's credential is overwritten and every later use of it computes a different HMAC")
+				}
+				if isBuiltinCall(x, "append") && aliasOf(x.Call.Args[0], key, 0) {
+					kr.Violation(fn, instrPos(in), "append onto the key slice", "the caller's key storage is written")
+				}
+				if isBuiltinCall(x, "copy") && aliasOf(x.Call.Args[0], key, 0) {
+					kr.Violation(fn, instrPos(in), "copy into the key slice", "the caller's key storage is written")
+				}
+			case *ssa.Store:
+				if ia, isIA := x.Addr.(*ssa.IndexAddr); isIA && aliasOf(ia.X, key, 0) {
+					kr.Violation(fn, instrPos(in), "store into the key slice", "the caller's key storage is written")
+				}
+				if aliasOf(x.Val, key, 0) {
+					kr.Violation(fn, instrPos(in), "key slice retained", "the object keeps a reference to the caller's key")
+				}
+			}
+		})
+	}
 }
